@@ -2039,6 +2039,7 @@ void indent_text()
                || pc->GetParentType() == CT_ELSEIF
                || pc->GetParentType() == CT_TRY
                || pc->GetParentType() == CT_CATCH
+               || pc->GetParentType() == CT_FINALLY
                || pc->GetParentType() == CT_DO
                || pc->GetParentType() == CT_WHILE
                || pc->GetParentType() == CT_USING_STMT
